@@ -13,8 +13,8 @@ EXTENDS Integers, Sequences, FiniteSets, TLC, Json
 CONSTANT TraceFile
 Trace == ndJsonDeserialize(TraceFile)
 
-VARIABLES l, hc, att, lastEnd, fin
-hvars == <<l, hc, att, lastEnd, fin>>
+VARIABLES l, hc, att, lastEnd, lastStart, fin
+hvars == <<l, hc, att, lastEnd, lastStart, fin>>
 Line == Trace[l]
 \* a property clause evaluated on a recorded line: a failure is reported with the clause's name and the line number, and
 \* validation goes on (so that one trace can report several independent findings)
@@ -29,7 +29,7 @@ Retryable(r) == IF r.err # "none" THEN r.err = "conn" ELSE RetryableStatus(r.sta
 RetryAfter(r) == IF r.err = "none" /\ r.status \in {429, 503} /\ r.ra >= 0 THEN r.ra * hc.unitsPerSec ELSE 0
 
 HConfig == /\ l <= Len(Trace) /\ Line.ev = "HConfig"
-           /\ hc' = Line.cfg /\ att' = 0 /\ lastEnd' = 0 /\ fin' = FALSE /\ l' = l + 1
+           /\ hc' = Line.cfg /\ att' = 0 /\ lastEnd' = 0 /\ lastStart' = 0 /\ fin' = FALSE /\ l' = l + 1
 
 \* attempt n reaches the server
 HReq ==
@@ -44,6 +44,9 @@ HReq ==
   /\ Must("bodyComplete", Line.bodyComplete)
   \* C18: the context the attempt runs under still carries the caller's values and deadline
   /\ Must("ctxValues", Line.ctxValues) /\ Must("ctxDeadline", Line.ctxDeadline)
+  \* C07 through the adapter: an attempt a Timeout gave up on is cancelled on the wire, body or not
+  /\ Must("attemptCancelled", ((\E j \in 1..Len(hc.policies) : hc.policies[j] = "timeout1") /\ Resp(att + 1).mode = "slow3") => Line.srvCancelled)
+  /\ lastStart' = Line.t
   /\ att' = att + 1 /\ lastEnd' = Line.tend /\ UNCHANGED <<hc, fin>> /\ l' = l + 1
 
 \* the caller gets the last attempt's response (or error), readable to the end
@@ -54,20 +57,23 @@ HFinal ==
          plainRetry == \E j \in 1..Len(hc.policies) : hc.policies[j] = "retryx"
          exhausted == plainRetry /\ Retryable(r) /\ att = hc.maxRetries + 1
          \* the upload cannot be rewound for the attempt that is due next (environment fault): the request ends with that error
+         \* a Timeout of one unit around a server that takes three: ErrExceeded when the limit elapses, the attempt cancelled
+         timesOut == (\E j \in 1..Len(hc.policies) : hc.policies[j] = "timeout1") /\ r.mode = "slow3"
          rewindFails == hc.seekFailFrom > 0 /\ att = hc.seekFailFrom - 1 /\ Retryable(r) /\ att <= hc.maxRetries IN
      /\ Must("retriesAllRetryable", rewindFails \/ ~Retryable(r) \/ att = hc.maxRetries + 1 \/ att = Len(hc.script))         \* nothing left to retry
-     /\ IF rewindFails THEN Must("lastError", Line.status = -1)
+     /\ IF timesOut THEN Must("timeoutPrompt", Line.status = -1 /\ Line.t <= lastStart + 1)
+        ELSE IF rewindFails THEN Must("lastError", Line.status = -1)
         ELSE IF exhausted THEN Must("exceededCarriesLast", "exceeded" \in DOMAIN Line /\ Line.exStatus = (IF r.err = "none" THEN r.status ELSE -1))
         ELSE IF r.err = "none" THEN Must("lastResponse", Line.status = r.status) /\ Must("bodyReadable", Line.bodyReadable /\ Line.bodyEqual)
         ELSE Must("lastError", Line.status = -1)
-  /\ fin' = TRUE /\ UNCHANGED <<hc, att, lastEnd>> /\ l' = l + 1
+  /\ fin' = TRUE /\ UNCHANGED <<hc, att, lastEnd, lastStart>> /\ l' = l + 1
 
 \* C19: once everything returned: no context merger left, every response that was not handed to the caller is closed
 HQuiesce ==
   /\ l <= Len(Trace) /\ Line.ev = "HQuiesce" /\ fin
   /\ Must("mergerLeak", Line.live = 0)
   /\ Must("responseNotClosed", Line.unclosed = 0)
-  /\ UNCHANGED <<hc, att, lastEnd, fin>> /\ l' = l + 1
+  /\ UNCHANGED <<hc, att, lastEnd, lastStart, fin>> /\ l' = l + 1
 
 \* gRPC: the interceptor passes arguments, reply and error through and carries metadata / values / deadline
 GCall ==
@@ -75,24 +81,24 @@ GCall ==
   /\ Line.n = att + 1
   /\ Must("grpcRetryOnlyRetryable", att > 0 => Line.prevRetryable /\ att <= hc.maxRetries)
   /\ Must("grpcArgs", Line.sameArgs) /\ Must("ctxValues", Line.ctxValues) /\ Must("ctxDeadline", Line.ctxDeadline) /\ Must("ctxMetadata", Line.ctxMetadata)
-  /\ att' = att + 1 /\ UNCHANGED <<hc, lastEnd, fin>> /\ l' = l + 1
+  /\ att' = att + 1 /\ UNCHANGED <<hc, lastEnd, lastStart, fin>> /\ l' = l + 1
 GFinal ==
   /\ l <= Len(Trace) /\ Line.ev = "GFinal" /\ ~fin
   /\ Line.attempts = att /\ Must("grpcReply", Line.sameReply /\ Line.sameError)
   /\ Must("grpcRetriesAllRetryable", Line.lastRetryable => att = hc.maxRetries + 1)
   /\ Must("mergerLeak", Line.live = 0)
-  /\ fin' = TRUE /\ UNCHANGED <<hc, att, lastEnd>> /\ l' = l + 1
+  /\ fin' = TRUE /\ UNCHANGED <<hc, att, lastEnd, lastStart>> /\ l' = l + 1
 
 \* C19: round trippers built without an inner transport share the default transport: N sequential executions through N fresh
 \* round trippers (loopback server, bodies read and closed) reuse its idle connection instead of opening one each
 HNilInner ==
   /\ l <= Len(Trace) /\ Line.ev = "NilInner"
   /\ Must("nilInnerSharesDefaultTransport", Line.executions >= 1 /\ Line.conns <= 2)
-  /\ UNCHANGED <<hc, att, lastEnd, fin>> /\ l' = l + 1
+  /\ UNCHANGED <<hc, att, lastEnd, lastStart, fin>> /\ l' = l + 1
 
-HDone == l = Len(Trace) + 1 /\ PrintT("TRACE-ACCEPTED") /\ l' = l + 1 /\ UNCHANGED <<hc, att, lastEnd, fin>>
+HDone == l = Len(Trace) + 1 /\ PrintT("TRACE-ACCEPTED") /\ l' = l + 1 /\ UNCHANGED <<hc, att, lastEnd, lastStart, fin>>
 
-HInit == l = 1 /\ hc = [script |-> <<>>, maxRetries |-> 0, unitsPerSec |-> 1, policies |-> <<>>, seekFailFrom |-> 0] /\ att = 0 /\ lastEnd = 0 /\ fin = FALSE /\ TLCSet(1, 1)
+HInit == l = 1 /\ hc = [script |-> <<>>, maxRetries |-> 0, unitsPerSec |-> 1, policies |-> <<>>, seekFailFrom |-> 0] /\ att = 0 /\ lastEnd = 0 /\ lastStart = 0 /\ fin = FALSE /\ TLCSet(1, 1)
 HNext == HConfig \/ HReq \/ HFinal \/ HQuiesce \/ HNilInner \/ GCall \/ GFinal \/ HDone
 HSpec == HInit /\ [][HNext]_hvars
 ProgressPrint == IF TLCGet(1) < l THEN PrintT(<<"HWM", l>>) /\ TLCSet(1, l) ELSE TRUE
